@@ -99,6 +99,56 @@ def progress_guards(chk: Check, eng: Engine) -> None:
         chk.bad("R06-d", eng.relfile(sb), sb.line, sb.fq, "scan_bytes accepts an incomplete match of length 0", "an item is copied into its own column without consuming input", keyparts="bytes-zero-incomplete")
 
 
+def earliest_parent(chk: Check, eng: Engine) -> None:
+    """R06-e.  construct_incomplete_tree climbs from an item to the start item: in the item's origin column it looks for an item whose dot is
+    the item's nonterminal.  Columns are filled in prediction order, so the item that predicted a rule precedes the rule's own items; with
+    left recursion the rule's own item `<list> -> . <list> ';' <item>` waits for <list> too, but *later* in the column.  Taking the earliest
+    match walks towards the start item; taking any later one can stay on the left-recursive item for ever."""
+    ip = eng.cls(f"{PMOD}.iterative_parser", "IterativeParser")
+    f = eng.method(ip, "construct_incomplete_tree", inherited=False)
+    loops = [w for w in walk_local(f.node) if isinstance(w, ast.While)]
+    if not loops:
+        raise AnalysisError("construct_incomplete_tree: the climbing loop was not found")
+    w = loops[0]
+    # how is the climbing variable re-bound inside the loop?
+    rebinds = [a for a in ast.walk(w) if isinstance(a, ast.Assign) and any(isinstance(t, ast.Name) and t.id == "current_state" for t in a.targets)]
+    if not rebinds:
+        raise AnalysisError("construct_incomplete_tree: `current_state` is not re-bound in the loop")
+    from ..core import parents_map, ancestors
+    pm = parents_map(f.node)
+    for a in rebinds:
+        v = a.value
+        # (i) inside `for s in <column>.states: if <match>: current_state = s ... break`
+        fors = [x for x in ancestors(pm, a) if isinstance(x, ast.For)]
+        if fors and isinstance(v, ast.Name) and isinstance(fors[0].target, ast.Name) and fors[0].target.id == v.id and ".states" in norm(fors[0].iter):
+            ifs = [x for x in ancestors(pm, a) if isinstance(x, ast.If)]
+            brk = bool(ifs) and any(isinstance(b, ast.Break) for b in ifs[0].body)
+            rev = "reversed" in norm(fors[0].iter) or "[::-1]" in norm(fors[0].iter)
+            if brk and not rev:
+                chk.ok("R06-e", f.fq, a.lineno, f"first match in column order: `for {v.id} in {short(fors[0].iter, 40)}` ... `break`")
+            else:
+                chk.bad("R06-e", eng.relfile(f), a.lineno, f.fq, f"the scan over `{short(fors[0].iter, 40)}` does not stop at the first match" + (" (reversed order)" if rev else ""),
+                        "a later waiting item is taken: with a left-recursive rule the walk returns to the rule's own item for ever", keyparts="parent-not-first|loop")
+            continue
+        # (ii) through a mapping built from the column: which entry wins for equal keys?
+        src = v
+        names = {n.id for n in ast.walk(v) if isinstance(n, ast.Name)}
+        maps = [d for d in ast.walk(f.node) if isinstance(d, ast.DictComp) and ".states" in norm(d)] + \
+               [d for d in ast.walk(f.node) if isinstance(d, ast.Assign) and any(isinstance(t, ast.Subscript) for t in d.targets) and any(isinstance(x, ast.For) and ".states" in norm(x.iter) for x in ancestors(pm, d))]
+        firsts = [c for c in ast.walk(f.node) if isinstance(c, ast.Call) and isinstance(c.func, ast.Attribute) and c.func.attr == "setdefault"]
+        nexts = [c for c in ast.walk(v) if isinstance(c, ast.Call) and isinstance(c.func, ast.Name) and c.func.id == "next"]
+        if nexts:
+            chk.ok("R06-e", f.fq, a.lineno, f"first match through `{short(nexts[0], 60)}`")
+        elif maps and not firsts:
+            chk.bad("R06-e", eng.relfile(f), a.lineno, f.fq, f"the parent item is looked up in a mapping built from the column (`{short(maps[0], 60)}`), where the *last* item with a given dot wins",
+                    "with a left-recursive rule the last item waiting for <list> is the rule's own `<list> -> . <list> ...` item: the walk never reaches the start item "
+                    "(parse requests that go through a computed repetition hang and allocate without bound)", keyparts="parent-not-first|mapping")
+        elif maps and firsts:
+            chk.ok("R06-e", f.fq, a.lineno, "mapping built with setdefault: the earliest item per dot wins")
+        else:
+            raise AnalysisError(f"construct_incomplete_tree: cannot tell how `{short(a, 60)}` selects the parent item")
+
+
 def run(chk: Check, eng: Engine) -> None:
     chk.rule("R06-a", "ParseState identity (__hash__/__eq__) reads only fields of finite domain and hash-fields are a subset of eq-fields", floor=3)
     chk.rule("R06-b", "Column.states / Column.unique are mutated only inside Column, and add() appends only behind the membership test", floor=3)
@@ -106,8 +156,10 @@ def run(chk: Check, eng: Engine) -> None:
     chk.rule("R06-d", "a terminal scan that completes a match must have consumed input: the no-progress rejection (`match_length <= <already matched>` / "
              "`match_length == 0`) is unconditional in every scanner", floor=2)
     chk.not_decided += ["termination of place_repetition_shortcut's upward walk", "termination of context-rule expansion (predict_ctx_rule)",
-                        "termination of the upward walk in construct_incomplete_tree (it depends on the insertion order of the states of a column)"]
+                        "that the earliest waiting item of a column is always a proper ancestor (Earley prediction order; relied upon by R06-e)"]
     progress_guards(chk, eng)
+    chk.rule("R06-e", "the walk from an item to the item that predicted it takes the *earliest* waiting item of the column (column order is prediction order)", floor=1)
+    earliest_parent(chk, eng)
 
     ps = eng.cls(f"{PMOD}.parse_state", "ParseState")
     init = eng.method(ps, "__init__")
@@ -303,6 +355,10 @@ _PS = "src/fandango/language/grammar/parser/parse_state.py"
 _COL = "src/fandango/language/grammar/parser/column.py"
 _IP = "src/fandango/language/grammar/parser/iterative_parser.py"
 MUTANTS = [
+    M("parent-item-by-last-match", _IP, "            for table_state in table[current_state.position].states:\n                if table_state.dot == current_state.nonterminal:\n                    current_state = table_state\n                    found_next_state = True\n                    break\n",
+      "            for table_state in table[current_state.position].states:\n                if table_state.dot == current_state.nonterminal:\n                    current_state = table_state\n                    found_next_state = True\n", "R06-e"),
+    M("parent-item-through-dict", _IP, "            found_next_state = False\n            for table_state in table[current_state.position].states:\n                if table_state.dot == current_state.nonterminal:\n                    current_state = table_state\n                    found_next_state = True\n                    break\n",
+      "            waiting = {s.dot: s for s in table[current_state.position].states}\n            parent_state = waiting.get(current_state.nonterminal)\n            found_next_state = parent_state is not None\n            if parent_state is not None:\n                current_state = parent_state\n", "R06-e"),
     M("regex-progress-guard-only-for-incomplete", _IP, "        if match and match_length <= prev_match_length:\n            match = False\n", "        if match and state.is_incomplete and match_length <= prev_match_length:\n            match = False\n", "R06-d"),
     M("regex-progress-guard-removed", _IP, "        if match and match_length <= prev_match_length:\n            match = False\n            match_length = 0\n", "", "R06-d"),
     M("bytes-accepts-empty-incomplete", _IP, "            if not match or match_length == 0:\n                return False\n", "            if not match:\n                return False\n", "R06-d"),
@@ -316,6 +372,8 @@ MUTANTS = [
     M("table-extended-in-loop", _IP, "            self.place_repetition_shortcut(table, curr_table_idx)\n", "            self.place_repetition_shortcut(table, curr_table_idx)\n            table.append(Column())\n", "R06-c"),
 ]
 TWINS = [
+    M("twin-parent-item-by-next", _IP, "            found_next_state = False\n            for table_state in table[current_state.position].states:\n                if table_state.dot == current_state.nonterminal:\n                    current_state = table_state\n                    found_next_state = True\n                    break\n",
+      "            parent_state = next((s for s in table[current_state.position].states if s.dot == current_state.nonterminal), None)\n            found_next_state = parent_state is not None\n            if parent_state is not None:\n                current_state = next(iter([parent_state]))\n", None),
     M("twin-regex-progress-guard-mirrored", _IP, "        if match and match_length <= prev_match_length:\n", "        if match and prev_match_length >= match_length:\n", None),
     M("twin-eq-reordered", _PS, "            and self.nonterminal == other.nonterminal\n            and self.position == other.position\n", "            and self.position == other.position\n            and self.nonterminal == other.nonterminal\n", None),
     M("twin-add-else-return", _COL, "                self.dot_map[symbol] = state_list\n            return True\n        return False\n", "                self.dot_map[symbol] = state_list\n            return True\n        else:\n            return False\n", None),
